@@ -192,7 +192,15 @@ def sites_of(P, body):
             elif msg == "BoundsCheck":
                 out.append(Site(body, bb, "bounds", msg, tm["ops"], tm["sp"], tm.get("exp", False), tm))
             elif msg in ("DivisionByZero", "RemainderByZero"):
-                out.append(Site(body, bb, "div", msg, tm["ops"], tm["sp"], tm.get("exp", False), tm))
+                # the message operand is the dividend; the divisor is the operand compared with zero to produce the condition
+                cl = op_place(tm["cond"])
+                dv = None
+                for st in reversed(body.blocks[bb]["stmts"]):
+                    rv = st.get("rv")
+                    if cl is not None and tuple(st["p"]) == tuple(cl) and rv and rv["k"] == "bin" and rv["op"] == "Eq":
+                        dv = rv["a"] if "k" in rv["b"] else rv["b"]
+                        break
+                out.append(Site(body, bb, "div", msg, [dv] if dv is not None else [], tm["sp"], tm.get("exp", False), tm))
         elif k == "call":
             n = callee_name(tm) or ""
             d = tm["callee"].get("decl") or ""
@@ -360,6 +368,12 @@ class Typer:
 
     def field_ty(self, bt, name):
         bt = _strip_ref(bt)
+        m = re.match(r"\{async fn body of (.+)\(\)\}$", bt)
+        if m and name.isdigit():
+            # the state of an async fn's coroutine: upvar k is the k-th parameter of the async fn
+            sig = self.P.sigs.get(m.group(1))
+            i = int(name)
+            return sig["inputs"][i] if sig and i < len(sig["inputs"]) else None
         if bt.startswith("(") and name.isdigit():
             parts = _generic_args("X<" + bt[1:-1] + ">")
             i = int(name)
@@ -412,15 +426,32 @@ def canon(t):
         return ("payload", t[1], canon(t[2]))
     if k == "un":
         return ("un", t[1], canon(t[2]))
+    if k == "phi":
+        return ("phi", tuple(canon(x) for x in t[1])) + tuple(t[2:])
     return t
 
 
 class Ranger:
+    param_range = None   # class-level hook: (body, local) -> (lo, hi) | None, installed by the interprocedural layer
+
     def __init__(self, P, body, length_of=None):
         self.P = P
         self.body = body
         self.typer = Typer(P, body)
         self.length_of = length_of   # callback term -> affine length or None
+
+    def size_of(self, t):
+        """value of std::mem::size_of::<T>() call terms, from the generic argument recorded on the terminator"""
+        if t[0] == "call" and t[1] in ("std::mem::size_of", "core::mem::size_of") and isinstance(t[3], int) and t[3] < len(self.body.blocks):
+            tm = self.body.blocks[t[3]]["term"]
+            if tm and tm["k"] == "call":
+                g = (tm["callee"].get("gargs") or [None])[0]
+                if g in INT_BITS:
+                    return INT_BITS[g] // 8
+                m = re.match(r"\[(\w+); (\d+)\]$", g or "")
+                if m and m.group(1) in INT_BITS:
+                    return INT_BITS[m.group(1)] // 8 * int(m.group(2))
+        return None
 
     def rng(self, t, depth=0):
         """(lo, hi) interval of an integer term (None = unknown bound)"""
@@ -428,6 +459,15 @@ class Ranger:
             return (None, None)
         t = norm(t)
         k = t[0]
+        if k == "call":
+            so = self.size_of(t)
+            if so is not None:
+                return (so, so)
+        if k == "param" and self.param_range is not None:
+            pr_ = self.param_range(self.body, t[1])
+            if pr_ is not None:
+                tr0 = type_range(_strip_ref(self.body.locals[t[1]]["ty"]))
+                return _meet(pr_, tr0)
         if k == "const":
             v = t[1]
             if isinstance(v, bool):
@@ -436,10 +476,22 @@ class Ranger:
                 return (v, v)
             return (None, None)
         if k == "len":
+            if self.length_of is not None:
+                ls = self.length_of(t[1])
+                if ls is not None and not ls[0]:
+                    return (ls[1], ls[1])
             return (0, ISIZE_MAX)
         l = _len_like(t)
         if l is not None:
-            return (0, ISIZE_MAX)
+            return self.rng(l, depth + 1)
+        if k == "phi":
+            rs = [self.rng(x, depth + 2) for x in t[1]]
+            if rs and all(r[0] is not None for r in rs):
+                lo = min(r[0] for r in rs)
+            else:
+                lo = None
+            hi = max(r[1] for r in rs) if rs and all(r[1] is not None for r in rs) else None
+            return (lo, hi)
         if k == "cast" and t[1] == "IntToInt":
             inner = self.rng(t[3], depth + 1)
             tr = type_range(t[2])
@@ -459,6 +511,12 @@ class Ranger:
             a = self.rng(t[2], depth + 1)
             b = self.rng(t[3], depth + 1)
             r = _arith(op, a, b)
+            if op == "Shl" and b[0] is not None and b[0] == b[1] and 0 <= b[0] < 64:
+                # the low k bits of x << k are zero: the value is at most MAX - (2^k - 1)
+                ty = self.typer.of(t[2])
+                tr = type_range(_strip_ref(ty)) if ty else None
+                if tr is not None:
+                    r = _meet(r, (tr[0], tr[1] - ((1 << b[0]) - 1)))
             if op in ("BitAnd",):
                 # x & m <= m for non-negative m
                 for x in (a, b):
@@ -467,6 +525,10 @@ class Ranger:
             return r
         ty = self.typer.of(t)
         tr = type_range(_strip_ref(ty)) if ty else None
+        if k == "call" and isinstance(t[1], str) and t[1] in self.P.bodies and depth < 12:
+            inl = inline_pure(self.P, t)
+            if inl is not None:
+                return _meet(self.rng(inl, depth + 4), tr)
         if k == "call" and isinstance(t[1], str):
             last = t[1].rsplit("::", 1)[-1]
             if last in ("min",) and len(t[2]) == 2:
@@ -557,6 +619,7 @@ class Prover:
         self.T = cterms(P, body)
         self.cfg = cfg_of(body)
         self.ranger = Ranger(P, body)
+        self.ranger.length_of = self.len_summary
         self._facts = {}
 
     # ---- linear forms over canonical atoms
@@ -598,6 +661,13 @@ class Prover:
             if s is not None:
                 return s
             return ({t: 1}, 0)
+        if k == "call":
+            so = self.ranger.size_of(t)
+            if so is not None:
+                return ({}, so)
+            inl = inline_pure(self.P, t)
+            if inl is not None and depth < 6:
+                return self.lin(inl, depth + 3)
         return ({t: 1}, 0)
 
     def len_summary(self, x):
@@ -767,6 +837,48 @@ class Prover:
         elif op == "Eq":
             facts.append(sub(la, lb, 0))
             facts.append(sub(lb, la, 0))
+        elif op == "Ne":
+            # x != c where c is the lower (upper) end of x's range: x >= c + 1 (x <= c - 1)
+            for x, lx, c, lc in ((a, la, b, lb), (b, lb, a, la)):
+                if not lc[0]:
+                    r = self.ranger.rng(x)
+                    if r[0] is not None and r[0] == lc[1]:
+                        facts.append(sub(({}, lc[1] + 1), lx, 0))
+                    if r[1] is not None and r[1] == lc[1]:
+                        facts.append(sub(lx, ({}, lc[1] - 1), 0))
+
+    use_invariants = True
+
+    def axioms(self, goal):
+        """facts from verified field invariants, for the values mentioned in the goal"""
+        out = []
+        if not self.use_invariants:
+            return out
+        for atom in list(goal[0]):
+            # values drawn from `for i in s..e`: s <= i < e
+            a0 = atom
+            while a0[0] == "cast":
+                a0 = a0[3]
+            if a0[0] == "payload" and a0[1] == "Some" and a0[2][0] == "call" and "Iterator for std::ops::Range<" in str(a0[2][1]) and str(a0[2][1]).endswith("::next"):
+                for y in subterms(a0[2]):
+                    if y[0] == "agg" and y[1] == "std::ops::Range":
+                        f = dict(y[3])
+                        ls, le = self.lin(f["start"]), self.lin(f["end"])
+                        me = ({atom: 1}, 0)
+                        out.append(_sub(ls, me))          # s - i <= 0
+                        out.append(_sub(me, le, 1))       # i - e + 1 <= 0
+                        break
+            for a in subterms(atom) if atom[0] != "len" else [atom] + list(subterms(atom[1])):
+                for adt, small, big in FIELD_INVARIANTS:
+                    if a[0] == "field" and a[2] == small:
+                        ty = self.ranger.typer.of(a[1])
+                        if ty and _strip_ref(ty).split("<")[0] == adt:
+                            out.append(({a: 1, ("len", ("field", a[1], big)): -1}, 0))
+                    if a[0] == "len" and a[1][0] == "field" and a[1][2] == big:
+                        ty = self.ranger.typer.of(a[1][1])
+                        if ty and _strip_ref(ty).split("<")[0] == adt:
+                            out.append(({("field", a[1][1], small): 1, a: -1}, 0))
+        return out
 
     # ---- proving
     def maxval(self, l):
@@ -789,17 +901,29 @@ class Prover:
         if m is not None and m <= 0:
             return "range"
         facts, _ = self.facts_at(bb)
+        facts = list(facts) + self.axioms(goal)
 
         def minus(g, f):
             d = dict(g[0])
             for z, c in f[0].items():
                 d[z] = d.get(z, 0) - c
             return ({z: c for z, c in d.items() if c}, g[1] - f[1])
+        def scaled(f, k):
+            return ({z: c * k for z, c in f[0].items()}, f[1] * k)
+
+        def multipliers(g, f):
+            ks = {1}
+            for z, c in f[0].items():
+                gc = g[0].get(z)
+                if gc and c and (gc > 0) == (c > 0) and abs(gc) > abs(c) and abs(gc) % abs(c) == 0:
+                    ks.add(abs(gc) // abs(c))
+            return sorted(ks)
         for f in facts:
-            h = minus(goal, f)
-            m = self.maxval(h)
-            if m is not None and m <= 0:
-                return "guard"
+            for k in multipliers(goal, f):
+                h = minus(goal, scaled(f, k))
+                m = self.maxval(h)
+                if m is not None and m <= 0:
+                    return "guard"
         for i, f1 in enumerate(facts):
             h1 = minus(goal, f1)
             for f2 in facts[i + 1:]:
@@ -927,6 +1051,8 @@ class Discharger:
             r = pr.prove(goal, s.bb)
             return ("D-" + r, "index < len") if r else None
         if s.kind == "div":
+            if not ops:
+                return None
             d = ops[0]
             r = pr.ranger.rng(d)
             if r[0] is not None and r[0] > 0:
@@ -1141,3 +1267,210 @@ class Discharger:
                 continue
             return None
         return None
+
+
+
+# ====================================================================== interprocedural argument ranges and field invariants
+
+class Inter:
+    """context-insensitive argument intervals (join over all call sites), bounded recursion"""
+
+    def __init__(self, P, cg):
+        self.P = P
+        self.cg = cg
+        self._memo = {}
+        self._stack = set()
+        Ranger.param_range = self.param_range
+
+    def param_range(self, body, local):
+        if not (1 <= local <= body.arg_count):
+            return None
+        ty = _strip_ref(body.locals[local]["ty"])
+        if ty not in INT_BITS:
+            return None
+        key = (body.id, local)
+        if key in self._memo:
+            return self._memo[key]
+        if key in self._stack or len(self._stack) > 4:
+            return None
+        if body.kind not in ("fn", "assoc_fn"):
+            return None
+        sites = self.cg.callers(body.id)
+        # functions whose address is taken / public API without callers keep their type range
+        if not sites:
+            return None
+        self._stack.add(key)
+        try:
+            lo, hi = None, None
+            first = True
+            for cb, bb, tm in sites:
+                if callee_name(tm) != body.id or local - 1 >= len(tm["args"]):
+                    return None
+                rg = Ranger(self.P, cb)
+                T = cterms(self.P, cb)
+                a = canon(T.at_term(tm["args"][local - 1], bb))
+                r = rg.rng(a)
+                if r[0] is None or r[1] is None:
+                    return None
+                lo = r[0] if first else min(lo, r[0])
+                hi = r[1] if first else max(hi, r[1])
+                first = False
+            res = (lo, hi)
+        finally:
+            self._stack.discard(key)
+        self._memo[key] = res
+        return res
+
+
+FIELD_INVARIANTS = [
+    # (ADT path, small field, big field): small <= len(big) holds whenever a value of the ADT is observable
+    ("erbium::pktparser::Buffer", "offset", "buffer"),
+]
+
+
+def check_field_invariants(P, D):
+    """verify each declared invariant at every construction and every assignment of the small field; returns list of failures"""
+    bad = []
+    proven = []
+    for adt, small, big in FIELD_INVARIANTS:
+        for b in P.bodies.values():
+            T = cterms(P, b)
+            pr = D.prover(b)
+            for bb, idx, s in b.stmts():
+                rv = s.get("rv")
+                if rv is None:
+                    continue
+                # construction
+                if rv["k"] == "agg" and rv.get("adt") == adt:
+                    t = canon(T.rvalue(rv, bb, idx))
+                    f = dict(t[3])
+                    g = _sub(pr.lin(f[small]), pr.lin(("len", canon(f[big]))))
+                    r = pr.prove(g, bb)
+                    (proven if r else bad).append((b, s["sp"], "construction", r))
+                # assignment to the small field of a value of that type
+                pl = s["p"]
+                if len(pl) >= 2 and pl[-1] == "." + small:
+                    ty = pr.ranger.typer.place_ty(pl[:-1])
+                    if ty and _strip_ref(ty).split("<")[0] == adt:
+                        newv = canon(T.rvalue(rv, bb, idx))
+                        bigt = canon(T.place(pl[:-1] + ("." + big,), bb, idx))
+                        g = _sub(pr.lin(newv), pr.lin(("len", bigt)))
+                        r = pr.prove(g, bb)
+                        (proven if r else bad).append((b, s["sp"], "assignment", r))
+                if len(pl) >= 2 and pl[-1] == "." + big:
+                    ty = pr.ranger.typer.place_ty(pl[:-1])
+                    if ty and _strip_ref(ty).split("<")[0] == adt:
+                        bad.append((b, s["sp"], "the bounded buffer field is reassigned", None))
+    return proven, bad
+
+
+
+_inl = {}
+
+
+def inline_pure(P, t):
+    """a call of a small local observer function `fn f(&self..) -> int { expr over params }` rewritten to that expression"""
+    from .util import subst_params
+    name = t[1]
+    if not isinstance(name, str) or name not in P.bodies:
+        return None
+    if name not in _inl:
+        _inl[name] = None
+        b = P.bodies[name]
+        if b.kind in ("fn", "assoc_fn") and len(b.blocks) <= 8 and not cfg_of(b).back_edges():
+            T = cterms(P, b)
+            rets = []
+            for bb, idx, s in b.stmts():
+                if s["p"] == (0,) and "rv" in s:
+                    rets.append(canon(T.rvalue(s["rv"], bb, idx)))
+            for bb, tm in b.calls():
+                if tm["dest"] == (0,):
+                    rets.append(canon(T.call_term(tm, bb)))
+            if len(rets) == 1 and rets[0][0] != "phi":
+                ok = True
+                for y in subterms(rets[0]):
+                    if y[0] in ("clobbered", "rec", "unknown", "phi"):
+                        ok = False
+                if ok and type_range(_strip_ref(b.locals[0]["ty"])) is not None:
+                    _inl[name] = rets[0]
+    r = _inl[name]
+    if r is None:
+        return None
+    mapping = {i + 1: canon(a) for i, a in enumerate(t[2])}
+    return canon(subst_params(r, mapping))
+
+
+# ====================================================================== stable keys
+
+def shape(t, depth=0):
+    """position-free rendering of a canonical term (no block numbers, no local numbers except parameters)"""
+    if depth > 14:
+        return "…"
+    k = t[0]
+    if k == "param":
+        return "arg%d" % t[1]
+    if k == "const":
+        if len(t) > 2 and t[2] != "bool":
+            return str(t[2]).split("::")[-1]
+        v = t[1]
+        if isinstance(v, tuple):
+            return str(v[-1]).split("::")[-1]
+        if isinstance(v, (bytes, str)) and len(v) > 24:
+            return repr(v[:24]) + "…"
+        return repr(v)
+    if k == "call":
+        n = t[1] if isinstance(t[1], str) else "(ptr)"
+        n = re.sub(r"<[^<>]*>", "", n)
+        n = re.sub(r"<[^<>]*>", "", n)
+        n = "::".join(n.split("::")[-2:])
+        return "%s(%s)" % (n, ",".join(shape(a, depth + 1) for a in t[2]))
+    if k == "agg":
+        return "%s{%s}" % (t[1].split("::")[-1] + ("::" + t[2] if t[2] else ""), ",".join("%s:%s" % (f, shape(v, depth + 1)) for f, v in t[3]))
+    if k == "bin":
+        return "%s(%s,%s)" % (t[1].replace("WithOverflow", ""), shape(t[2], depth + 1), shape(t[3], depth + 1))
+    if k == "un":
+        return "%s(%s)" % (t[1], shape(t[2], depth + 1))
+    if k == "cast":
+        return "(%s as %s)" % (shape(t[3], depth + 1), t[2].split("::")[-1])
+    if k == "field":
+        if t[2] == "0" and t[1][0] == "bin":
+            return shape(t[1], depth + 1)
+        return "%s.%s" % (shape(t[1], depth + 1), t[2])
+    if k == "payload":
+        return "%s<%s>" % (shape(t[2], depth + 1), t[1])
+    if k == "len":
+        return "len(%s)" % shape(t[1], depth + 1)
+    if k == "index":
+        return "%s[]" % shape(t[1], depth + 1)
+    if k == "clobbered":
+        pl = t[2]
+        return "mut(%s%s)" % ("arg%d" % pl[0] if True else "", "".join(e for e in pl[1:] if e != "*"))
+    if k == "phi":
+        return "phi(%s)" % "|".join(sorted(shape(x, depth + 1) for x in t[1]))
+    if k == "rec":
+        return "loopvar"
+    if k == "await":
+        return "await(%s)" % shape(t[1], depth + 1)
+    if k == "downcast":
+        return "%s@%s" % (shape(t[1], depth + 1), t[2])
+    if k == "discr":
+        return "discr(%s)" % shape(t[1], depth + 1)
+    if k == "repeat":
+        return "[%s;%s]" % (shape(t[1], depth + 1), t[2])
+    return k
+
+
+def site_key(P, D, s):
+    import hashlib
+    pr = D.prover(s.body)
+    n = len(s.body.blocks[s.bb]["stmts"])
+    ops = [canon(pr.T.operand(o, s.bb, n)) for o in s.ops[:2]]
+    shp = [shape(o) for o in ops]
+    fn = s.body.id
+    # the function's own name (closures: the enclosing function's name) keeps reports diagnosable; module path is left out
+    parts = [p_ for p_ in fn.split("::") if not p_.startswith("{closure")]
+    short = parts[-1] if parts else fn
+    full = "%s|%s|%s" % (s.kind + ":" + s.what, short, "|".join(shp))
+    h = hashlib.sha1(full.encode()).hexdigest()[:10]
+    head = "%s:%s@%s(%s)" % (s.kind, s.what, short, ";".join(x[:48] for x in shp))
+    return "%s#%s" % (head[:150], h)
